@@ -240,7 +240,9 @@ PROPS["C06"] = {
                   "(empty, non-numeric, mixed-type JSON, non-UTF-8, extreme numbers); (2) single and double edits of them (delete / duplicate / swap / "
                   "replace / insert token, flip byte, truncate, unbalance bracket or quote, splice two statements, pad); (3) long inputs up to 8 KB "
                   "(deep parentheses, ! chains, 1500-term operator chains, long IN lists, 300-link alias chains); (4) the README/spec examples and "
-                  "the crashers named in the property; (5) thorough tier: go test -fuzz on (query, store selector) seeded with all of the above. "
+                  "the crashers named in the property; (4b) 38 statement templates that apply every operator family, scalar function, ORDER BY, GROUP BY "
+                  "and aggregate to a JSON member, over every assignment of 12 dynamic types (int, float, string, bool, null, arrays, object, missing) to "
+                  "that member in the first rows of the store (the batch path picks its comparison kind from the first row of a chunk); (5) thorough tier: go test -fuzz on (query, store selector) seeded with all of the above. "
                   "Each case is planned, drained with Next and with Batch at batch sizes 1,2,3,32 and every error is bound and rendered with three "
                   "paddings. A recovered panic, a drain exceeding the deterministic poll cap, >30 CPU-seconds for one case, or the death of the "
                   "worker process (stack overflow and other fatal errors bypass recover; the driver attributes them through the case journal) "
@@ -254,6 +256,7 @@ PROPS["C06"] = {
     "legs": [
         {"test": "TestC06Seeds", "kind": "enum", "quick": {"shards": 1}, "thorough": {"shards": 1}},
         {"test": "TestC06Long", "kind": "enum", "quick": {"shards": 2}, "thorough": {"shards": 4}},
+        {"test": "TestC06Dynamic", "kind": "enum", "quick": {"shards": 4}, "thorough": {"shards": 8}},
         {"test": "TestC06Grammar", "kind": "rapid", "quick": {"checks": 10000, "shards": 4, "shrink": "15s"}, "thorough": {"checks": 150000, "shards": 8}},
         {"test": "TestC06Corrupt", "kind": "rapid", "quick": {"checks": 15000, "shards": 4, "shrink": "15s"}, "thorough": {"checks": 300000, "shards": 8}},
         {"test": "FuzzC06", "kind": "fuzz", "thorough": {"fuzztime": 600}},
